@@ -53,7 +53,7 @@ func HarnessC04Txn(st any) {
 			}
 			kind := sym.Choose("kind"+string(rune('0'+step)), nOps)
 			method := c02Methods[sym.Choose("m"+string(rune('0'+step)), 2)]
-			pattern := c02Pool[sym.Choose("p"+string(rune('0'+step)), np)]
+			pattern := c02Pool[sym.ParamOr("poolfrom", 0)+sym.Choose("p"+string(rune('0'+step)), np)]
 			probes = append(probes, mentry{method: method, pattern: pattern})
 			if !applyOp(s.r, txn, txn, model, kind, method, pattern) {
 				dontCare = true
